@@ -17,10 +17,14 @@ def run(tier, replay):
         # 2. replay on the real library + seeded random inputs and corruptions
         trace = sc.path("trace.ndjson")
         nrand, maxlen, ncorr = (300, 600, 40) if tier == "quick" else (3000, 6000, 400)
+        # sweep: how many values of the first coordinate (of 256 bytes / proportionally of 64 characters); the
+        # other coordinates always run in full.  256 = all 2^24 three-byte groups and all 64^4 four-character groups.
+        sweep = 4 if tier == "quick" else 256
         if replay:
             cases_path = replay
         vlib.run_harness(["base64", "--cases", cases_path, "--out", trace, "--seed", vlib.seed(),
-                          "--random", nrand, "--maxlen", maxlen, "--corrupt", ncorr])
+                          "--random", nrand, "--maxlen", maxlen, "--corrupt", ncorr, "--sweep", sweep, "--threads", 14],
+                         timeout=3000)
         # 3. validate the recorded trace against the specification
         tv = vlib.validate_trace("Trace_Base64", trace, heap="12g" if tier == "thorough" else "6g")
         events = vlib.read_ndjson(trace) if tv.fails else None
@@ -39,8 +43,17 @@ def run(tier, replay):
             "spec_cases_replayed": len(mc.cases),
             "trace_events": tv.done[0], "rejected_events": tv.done[1],
             "exhaustive": tier == "thorough",
-            "rule": "TLC enumerates every 1- and 2-byte input and every input of <= MaxLen bytes over B3 "
-                    "(thorough: all 16.8M 3-byte groups via the sweep below); each is encoded and decoded by the real "
+            "sweep_calls": sweep * 65536 + max(1, sweep // 4) * 64 ** 3,
+            "sweep_events": sum(1 for line in open(trace) if '"op":"sweep"' in line),
+            "rule": "sweep: %s three-byte groups through Base64::encode and %s four-character groups through "
+                    "Base64::decode; per key (two neighbouring coordinates) the set of values seen at each output "
+                    "position is one trace event, judged by Codec_Base64!SweepPermitted (singleton = the RFC value; "
+                    "MC_Base64!TablesAgree ties the tables to Enc/Dec). "
+                    "TLC enumerates every 1- and 2-byte input and every input of <= MaxLen bytes over B3; "
+                    "each is encoded and decoded by the real " % (
+                        ("ALL 16 777 216" if sweep == 256 else "%d" % (sweep * 65536)),
+                        ("ALL 16 777 216" if sweep == 256 else "%d" % (max(1, sweep // 4) * 64 ** 3)))
+                    +
                     "library and the event is validated by Trace_Base64; plus seeded random inputs up to %d bytes in "
                     "every length residue mod 3 and every position x 9 replacement characters of %d valid texts" % (maxlen, ncorr),
             "checker_cmd": "tlc MC_Base64 (%s.cfg); rwsv base64; tlc Trace_Base64" % cfg,
